@@ -67,7 +67,7 @@ CHECKS = {
  "C16": ("exploration", "exhaustive enumeration over configurations x (slot, slice, shred) triples with one independently constructed instance per validator (twice, second one queried in reverse order) over a recording network, then execution of the fault-free dissemination on the recordings", "E3",
          "DESIGN.md §3 C16",
          "For validator counts 1-12, 50, 100 with equal / geometric / one-dominant / increasing stakes and protocols Rotor::new, Rotor::new_fa1 and Turbine with fanout 1/2/3/200, every validator's own instance must name the same first hop and the same forwarding set for every triple, independently of construction and call order; executing leader send + forwards on the recorded destinations, every non-leader validator receives each shred exactly once, through exactly one relay broadcast under Rotor.",
-         "Configurations for which the FA1 partition sampler cannot be constructed (a C17 known finding) are skipped and listed in the evidence; slots 0..8, slices 0..2."),
+         "Configurations for which the FA1 partition sampler cannot be constructed (a C17 known finding) are skipped and listed in the evidence; slots 0..8, slices {0,1,2,511,512,513,1023}."),
  "C17": ("exploration", "exhaustive enumeration over strategies x validator sets x committee sizes x scripted random sources (real PRNG streams with 0-2 draws overridden by extreme values), oracle = exact integer arithmetic", "E3",
          "DESIGN.md §3 C17",
          "Every shipped strategy is constructed twice for every validator count (1..16, 31-33, 49, 63-65, 100, 1000, 2000) x stake family (equal, heavy tail, one dominant, straddling i/k, all vectors over 1..3 for n<=5) x committee size and sampled with every script: construction must not panic, exactly k in-range members, identical committees across constructions and repeated use, at least floor(f*k) seats under FA1/FA2 (exact integers), seat cap under decaying acceptance. Failing constructions that are recorded genuine defects are matched input-by-input against /verif/known_findings.json.",
